@@ -578,10 +578,18 @@ def check(ctx):
     # a list rule never yields an AND over nothing (which would allow)
     nf2, no2 = len(ctx.findings), len(ctx.obligations)
     c01.check_list(ctx, classes, empty_and_rule='C02.TRUE-GUARD')
+    # (the list rules themselves are cross-listed: a member or entry left
+    # out of, or wrongly added to, the OR of ANDs can grant)
     ctx.findings[nf2:] = [f for f in ctx.findings[nf2:]
-                          if f.rule == 'C02.TRUE-GUARD']
+                          if f.rule in ('C02.TRUE-GUARD', 'C01.LIST')]
     ctx.obligations[no2:] = [o for o in ctx.obligations[no2:]
-                             if o['rule'] == 'C02.TRUE-GUARD']
+                             if o['rule'] in ('C02.TRUE-GUARD', 'C01.LIST')]
+    for f_ in ctx.findings[nf2:]:
+        if f_.rule == 'C01.LIST':
+            f_.rule = 'C02.LIST(C01.LIST)'
+    for o_ in ctx.obligations[no2:]:
+        if o_['rule'] == 'C01.LIST':
+            o_['rule'] = 'C02.LIST(C01.LIST)'
     # ... and only if every rule text goes through tokenizer + table at all
     # (no fast path that hands a text to the single-check parser directly)
     # ... a quoted word (the empty one included) is a string token, which
